@@ -178,10 +178,13 @@ def expected_select(out):
     return "OK S " + " ".join("%d:%s=%s" % (i + 1, enc(n), fmt_sources(s)) for i, (n, s) in enumerate(out))
 
 
-def case(rng):
-    """one (request, expected body, expected asked-keys set or None) triple"""
+def case(rng, cat=None):
+    """one (catalogue, text, expected body, expected asked keys or None) tuple; with `cat` given, another statement over that catalogue"""
     kind = rng.random()
-    cat = Cat(rng, rng.randint(1, 4), overlap=(0.80 <= kind < 0.86))
+    if cat is None:
+        cat = Cat(rng, rng.randint(1, 4), overlap=(0.80 <= kind < 0.86))
+    elif 0.80 <= kind < 0.86:
+        kind = 0.1
     text, out, keys = gen_select(rng, cat, rng.choice([0, 1, 1, 2]))
     expected = expected_select(out)
     if kind < 0.49:
@@ -200,7 +203,15 @@ def case(rng):
         return cat, text, expected_select([("o1", {src(t, c)}), ("o2", {src(t, d)}), ("o3", {src(t, c), src(t, d)})]), [cat.key(t)]
     elif kind < 0.65:                                   # WITH table
         inner, iout, ikeys = gen_select(rng, cat, 0)
-        text = "WITH w AS (%s) SELECT %s FROM w" % (inner, ", ".join("w." + n if rng.random() < 0.5 else n for n, _ in iout))
+        wn = "w"
+        j = rng.random()
+        if j < 0.3:
+            wn = cat.tables[-1][1]                     # the name of a base table: the WITH table shadows it in this statement, and only here
+        sel = ", ".join(wn + "." + n if rng.random() < 0.5 else n for n, _ in iout)
+        if j > 0.75:                                    # the WITH clause sits inside a derived table, not at the top
+            text = "SELECT %s FROM (WITH %s AS (%s) SELECT %s FROM %s) dd" % (", ".join("dd." + n for n, _ in iout), wn, inner, sel, wn)
+        else:
+            text = "WITH %s AS (%s) SELECT %s FROM %s" % (wn, inner, sel, wn)
         expected, keys = expected_select(iout), ikeys
     elif kind < 0.72:                                   # UNION over disjoint tables, qualified references
         if len(cat.tables) >= 2:
